@@ -180,3 +180,42 @@ example : inRangeO (iterLongerDuration (lkFamilyPrefix false 10 [List.replicate 
     (lockRefStoreKey false (combineKeys [[10], List.replicate 20 255, [112, 47, 49, 48], lkDurationKey 7]) 3) = false := by decide
 
 end DymVerif.C19
+
+namespace DymVerif.C19
+open DymVerif DymVerif.Keys
+
+/-! ### families and unlocking status do not mix -/
+
+/-- every reference key of a lock starts with its family byte 0x07..0x0E and the separator -/
+theorem lock_ref_keys_family (l : LockK) (k : Bytes) (hk : k ∈ lockRefKeys l) :
+    ∃ f rest, k = f :: 255 :: rest ∧ 7 ≤ f ∧ f ≤ 14 := by
+  rcases (lock_ref_keys_mem l k).mp hk with h | h | ⟨dn, _, h | h⟩ | h | h | ⟨dn, _, h | h⟩ <;>
+    (subst h; simp only [combineKeys, List.cons_append, List.nil_append]) <;>
+    exact ⟨_, _, rfl, by omega, by omega⟩
+
+/-- a prefix scan of family `f` under unlocking status `u` (whatever owner / denom components follow)
+    matches a stored reference key only of the same family and the same status -/
+theorem lockup_family_prefix_disjoint (u u' : Bool) (f f' : Nat) (comps : List Bytes) (rest : Bytes) (id : Nat)
+    (h : isPrefix (lkFamilyPrefix u f comps) (lockRefStoreKey u' (f' :: 255 :: rest) id) = true) :
+    u = u' ∧ f = f' := by
+  cases comps with
+  | nil => cases u <;> cases u' <;>
+      simp [lkFamilyPrefix, combineKeys, unlockingPrefix, lockRefStoreKey, isPrefix] at h ⊢ <;> omega
+  | cons c cs => cases u <;> cases u' <;>
+      simp [lkFamilyPrefix, combineKeys, unlockingPrefix, lockRefStoreKey, isPrefix] at h ⊢ <;> omega
+
+/-- the range scans bounded above by `PrefixEndBytes(prefix)` (`iteratorAfterTime`,
+    `iteratorLongerDuration`, `iteratorDuration`, `iterator`) return only keys that carry the prefix —
+    hence, by `lockup_family_prefix_disjoint`, only keys of their own family and unlocking status -/
+theorem lockup_scan_within_prefix (pfx s k : Bytes) (hk : Bytes.WF k)
+    (h : inRangeO (pfx ++ s) (prefixEnd pfx) k = true) : isPrefix pfx k = true := by
+  rw [← prefix_range_exact pfx k hk]
+  simp only [inRangeO, Bool.and_eq_true] at h ⊢
+  refine ⟨?_, h.2⟩
+  cases hl : lexLt k pfx with
+  | false => simp [lexLe, hl]
+  | true =>
+    have := lexLt_append_right k pfx s hl
+    simp [lexLe, this] at h
+
+end DymVerif.C19
